@@ -256,6 +256,15 @@ def main():
     ml = re.search(r"for\s+app_memory\s+in\s+&config\.app_memory\s*\{(.*)\n    \}\n", am, re.S)
     if ml:
         app_noskip = "some false" if re.search(r"\bcontinue\b|\bbreak\b|\breturn\s+Ok", ml.group(1)) else "some true"
+    # write_dso_debug_stream: the walk over the link maps tests a set of visited addresses; every entry's name starts empty
+    walk_visited = "none"
+    mw = re.search(r"while\s+curr_map\s*!=\s*0([^{]*)\{", dd)
+    if mw:
+        walk_visited = "some true" if re.search(r"&&\s*visited\.insert\(curr_map\)", mw.group(1)) and re.search(r"let\s+mut\s+visited\s*=\s*std::collections::HashSet::new\(\)", dd) else "some false"
+    name_fresh = "none"
+    mn = re.search(r"for\s*\(idx,\s*map\)\s*in\s*dso_vec\.iter\(\)\.enumerate\(\)\s*\{\s*([^;]*;)", dd)
+    if mn:
+        name_fresh = "some true" if re.sub(r"\s+", " ", mn.group(1)).strip() == "let mut filename = String::new();" else "some false"
     out = []
     out.append("/- GENERATED by gen/extract.py from /repo's source — do not edit. -/")
     out.append("namespace Mdw.Src\n")
@@ -284,6 +293,8 @@ def main():
     out.append(f"\n/-- `dump()` tests for an empty thread list *after* `suspend_threads` and reports `SuspendNoThreadsLeft` then (none = not recognisable) -/\ndef noThreadsLeftAfterSuspend : Option Bool := {ntl}")
     out.append(f"\n/-- `fill_thread_stack` takes `stack_ptr.saturating_sub(valid_stack_ptr)` as the stack pointer's offset into the copy (none = not recognisable) -/\ndef spOffsetSaturating : Option Bool := {sp_off}")
     out.append(f"\n/-- the loop of `app_memory::write` has no `continue` / `break` / early `Ok` return: every requested region is copied and recorded (none = not recognisable) -/\ndef appLoopNoSkip : Option Bool := {app_noskip}")
+    out.append(f"\n/-- the link-map walk of `write_dso_debug_stream` stops at an address it has visited before (a HashSet tested in the loop condition) (none = not recognisable) -/\ndef linkWalkVisited : Option Bool := {walk_visited}")
+    out.append(f"\n/-- every link-map entry's name starts as a fresh empty string inside the loop (none = not recognisable) -/\ndef linkNameFresh : Option Bool := {name_fresh}")
     out.append("\nend Mdw.Src\n")
     text = "\n".join(out)
     os.makedirs(os.path.dirname(OUT), exist_ok=True)
